@@ -11,7 +11,9 @@ import time
 
 VERIF = os.path.dirname(os.path.dirname(os.path.abspath(__file__)))
 REPO = os.environ.get("VERIF_REPO", "/repo")
-WORK = os.path.join(VERIF, ".work")
+WORK = os.environ.get("VERIF_WORK") or os.path.join(VERIF, ".work")
+# evidence and replays of trial runs against another tree (VERIF_REPO) go elsewhere (VERIF_EVIDENCE)
+EVIDENCE = os.environ.get("VERIF_EVIDENCE") or os.path.join(VERIF, "evidence")
 MODPATH = "git.torproject.org/pluggable-transports/snowflake.git/v2"
 NPROC = int(os.environ.get("VERIF_NPROC", str(os.cpu_count() or 4)))
 
@@ -301,9 +303,9 @@ class Report:
         for v in self.violations:
             if v["sig"] == sig:
                 return True
-        os.makedirs(os.path.join(VERIF, "evidence", "replays"), exist_ok=True)
+        os.makedirs(os.path.join(EVIDENCE, "replays"), exist_ok=True)
         h = hashlib.sha1((self.pid + sig).encode()).hexdigest()[:10]
-        path = os.path.join(VERIF, "evidence", "replays", "%s-%s.json" % (self.pid, h))
+        path = os.path.join(EVIDENCE, "replays", "%s-%s.json" % (self.pid, h))
         obj = {"property": self.pid, "sig": sig, "msg": msg}
         obj.update(replay_obj or {})
         json.dump(obj, open(path, "w"), indent=1)
@@ -321,8 +323,8 @@ class Report:
             "coverage": cov, "assumptions": self.assumptions, "wall_s": round(wall, 2),
             "violations": len(self.violations),
         }
-        os.makedirs(os.path.join(VERIF, "evidence"), exist_ok=True)
-        json.dump(ev, open(os.path.join(VERIF, "evidence", self.pid + ".json"), "w"), indent=1, sort_keys=True)
+        os.makedirs(EVIDENCE, exist_ok=True)
+        json.dump(ev, open(os.path.join(EVIDENCE, self.pid + ".json"), "w"), indent=1, sort_keys=True)
         for v in self.violations:
             print("VIOLATION property=%s replay=%s" % (self.pid, v["replay"]))
             print("  sig=%s %s" % (v["sig"], v["msg"][:400]))
